@@ -101,6 +101,9 @@ func valueProv(v ssa.Value, env provEnv) prov {
 		return loadProv(a, env)
 	case *ssa.Field:
 		p := valueProv(x.X, env)
+		if isPromotedHop(x.X.Type(), x.Field) {
+			return p
+		}
 		return prov{p.root, append(append([]string{}, p.fields...), fieldName(x.X.Type(), x.Field)), p.chain}
 	case *ssa.ChangeType:
 		return valueProv(x.X, env)
@@ -190,6 +193,9 @@ func addrProv(a ssa.Value, env provEnv) prov {
 		return prov{root: x, chain: env.chain}
 	case *ssa.FieldAddr:
 		base := addrOrValue(x.X, env)
+		if isPromotedHop(x.X.Type(), x.Field) {
+			return base
+		}
 		return prov{base.root, append(append([]string{}, base.fields...), fieldName(x.X.Type(), x.Field)), base.chain}
 	}
 	// any other pointer-typed value: a pointer value whose provenance selects through
@@ -511,24 +517,33 @@ func literalCallArg(p *ssa.Parameter) ssa.Value {
 	}
 	var arg ssa.Value
 	n := 0
-	instrs(lit.Parent(), func(_ *ssa.BasicBlock, _ int, in ssa.Instruction) {
-		cc := callCommon(in)
-		if cc == nil || cc.IsInvoke() {
-			return
+	// the call may sit in the enclosing function or in a sibling literal that reaches this one through the local variable
+	// that holds it (deliver := func(b []T) bool {...}; flush := func() bool { if !deliver(batch) {...} })
+	for _, host := range withAnon(rootFn(lit)) {
+		if host == lit {
+			continue
 		}
-		var f *ssa.Function
-		switch v := cc.Value.(type) {
-		case *ssa.MakeClosure:
-			f, _ = v.Fn.(*ssa.Function)
-		case *ssa.Function:
-			f = v
-		}
-		if f != lit || k >= len(cc.Args) {
-			return
-		}
-		n++
-		arg = cc.Args[k]
-	})
+		instrs(host, func(_ *ssa.BasicBlock, _ int, in ssa.Instruction) {
+			cc := callCommon(in)
+			if cc == nil || cc.IsInvoke() {
+				return
+			}
+			var f *ssa.Function
+			switch v := cc.Value.(type) {
+			case *ssa.MakeClosure:
+				f, _ = v.Fn.(*ssa.Function)
+			case *ssa.Function:
+				f = v
+			case *ssa.UnOp:
+				f = resolveFuncValue(v, 0)
+			}
+			if f != lit || k >= len(cc.Args) {
+				return
+			}
+			n++
+			arg = cc.Args[k]
+		})
+	}
 	if n != 1 {
 		return nil
 	}
